@@ -13,6 +13,7 @@ from .c03 import shape
 from .c13 import leafkinds
 
 _AMB: dict = {}
+_WIT: dict = {}
 DEFS: list = [None]
 
 
@@ -30,6 +31,7 @@ def union_ambiguous(U, env, rng):
     members = [m for m in U["xs"] if not _is_none(m)]
     anns = [env.annotation(m) for m in members]
     amb = False
+    wit = {}
     for j in range(1, len(members)):
         pool = LEAF_POOLS[members[j]["n"]] if members[j]["k"] == "prim" else values(members[j], env, rng, 4)
         for v in pool:
@@ -38,19 +40,21 @@ def union_ambiguous(U, env, rng):
             except Exception:
                 continue
             for i in range(j):
-                for fn, arg in ((typelib.marshaller(anns[i]), v), (typelib.unmarshaller(anns[i]), wj)):
+                for side, fn, arg in (("marshal", typelib.marshaller(anns[i]), v), ("unmarshal", typelib.unmarshaller(anns[i]), wj)):
                     try:
                         fn(arg)
                         amb = True
                     except Exception:
-                        pass
-                if amb:
-                    break
-            if amb:
-                break
-        if amb:
-            break
+                        continue
+                    # what was taken over by which kind of member: judged by the trace spec (a container never takes a scalar)
+                    a = project(arg)
+                    mk = members[i]
+                    while mk["k"] in ("newtype", "alias", "salias"):
+                        mk = mk["a"]
+                    w = {"mk": mk["k"], "ak": a["k"], "mix": a.get("mix", "-"), "side": side}
+                    wit[json.dumps(w, sort_keys=True)] = w
     _AMB[key] = amb
+    _WIT[key] = [wit[k] for k in sorted(wit)]
     return amb
 
 
@@ -122,6 +126,29 @@ def composite_key_in_union(T, defs, inside=False, seen=()):
     return False
 
 
+def witnesses(T, defs, seen=()):
+    """Take-over witnesses (see union_ambiguous) of every union inside T."""
+    k = T["k"]
+    out = []
+    if k == "union":
+        out += _WIT.get(json.dumps(T, sort_keys=True), [])
+        for m in T["xs"]:
+            out += witnesses(m, defs, seen)
+    elif k == "cls":
+        if T["c"] not in seen:
+            for f in defs[T["c"]]["fields"]:
+                out += witnesses(f[1], defs, seen + (T["c"],))
+    else:
+        for key in ("a", "ka", "va"):
+            if isinstance(T.get(key), dict):
+                out += witnesses(T[key], defs, seen)
+        if k == "tup":
+            for x in T["xs"]:
+                out += witnesses(x, defs, seen)
+    uniq = {json.dumps(w, sort_keys=True): w for w in out}
+    return [uniq[k] for k in sorted(uniq)]
+
+
 def type_ambiguous(T, defs, env, rng, seen=()):
     k = T["k"]
     if k == "union":
@@ -160,6 +187,7 @@ def collect(ctx: Ctx, profile: str):
             # (that cross-talk is C12's subject); C01 measures each annotation with cold caches
             clear_typelib_caches()
         amb = type_ambiguous(T, defs, env, rng)
+        ambw = witnesses(T, defs) if amb else []
         for j, v in enumerate(values(T, env, rng, 4 if T["k"] != "prim" else 8)):
             vt = project(v)
             w, wv = vs.out_of(typelib.marshal, v, t=ann)
@@ -168,7 +196,7 @@ def collect(ctx: Ctx, profile: str):
                 r, rv = vs.out_of(typelib.unmarshal, ann, wv)
                 if r["k"] == "ok":
                     w2, _ = vs.out_of(typelib.marshal, rv, t=ann)
-            events.append({"ev": "roundtrip", "T": T, "v": vt, "w": w, "r": r, "w2": w2, "amb": amb})
+            events.append({"ev": "roundtrip", "T": T, "v": vt, "w": w, "r": r, "w2": w2, "amb": amb, "ambw": ambw})
             meta.append((j, repr(v)[:100]))
     return events, meta, model, len(types)
 
@@ -234,8 +262,9 @@ def replay(ctx: Ctx, rep: dict) -> Outcome:
         if r["k"] == "ok":
             w2, _ = vs.out_of(typelib.marshal, rv, t=ann)
     print("  ", ann, repr(v)[:100], "->", w, "->", r)
+    amb = type_ambiguous(c["T"], defs, env, rng)
     ev = [{"ev": "roundtrip", "T": c["T"], "v": project(v), "w": w, "r": r, "w2": w2,
-           "amb": type_ambiguous(c["T"], defs, env, rng)}]
+           "amb": amb, "ambw": witnesses(c["T"], defs) if amb else []}]
     _, rejects = tlc.validate_trace("Wire_Trace", "Wire_Trace.cfg", ev)
     viol, _ = _violations(rejects, ev, [(c["value_id"], c["value_repr"])])
     return Outcome(level="model_checking", coverage={"evaluations": 1}, violations=viol)
